@@ -45,8 +45,8 @@ MAX_STEPS = 8000
 
 
 def cases(tier, seed):
-    n_single = 96 if tier == 'quick' else 2400
-    n_core = 6 if tier == 'quick' else 240
+    n_single = 160 if tier == 'quick' else 2400
+    n_core = 20 if tier == 'quick' else 240
     out = []
     for i in range(n_single):
         out.append({'name': 'single-%d' % i, 'kind': 'single',
@@ -261,8 +261,10 @@ def check_unrodded(res, rec, key):
     # first step of the sweep nothing of the kind has run yet: whatever
     # set-up left in the coolant object is used (recorded finding F132).
     first = bool(float(rec['z0']) == 0.0)
-    # (with constant properties the evaluation temperature is immaterial)
-    if key.get('tdep', True):
+    # (one-node model: with constant properties the evaluation temperature
+    # is immaterial and the start-up state is not reported; the six-node
+    # model is asserted always - it refreshes inside its own update)
+    if six or key.get('tdep', True):
         res.close('I7_properties_at_own_mean_temperature',
                   props['T'] - t_own, t_own, 1e-9,
                   '%s region advanced with coolant properties at %.4f K, its '
